@@ -1400,8 +1400,12 @@ class Engine:
                                 self.cmp(ast.Lt(), idx, ln)), "index_in_range", node)
             if isinstance(idx, int) and idx < 0:
                 pos = self.arith(ast.Add(), ln, idx, st, node)
-            elif isinstance(idx, int):
+            elif isinstance(idx, int) or st.spec_mode:
+                # (specifications index from the front: the sidecar never uses negative indices, and
+                # a wrap-around if-then-else inside every quantified invariant hides its triggers)
                 pos = idx
+            elif not self.decide(st, self.cmp(ast.Lt(), idx, 0))[0]:
+                pos = idx             # the path condition excludes a negative index
             else:
                 pos = Ite(self.cmp(ast.Lt(), idx, 0), self.arith(ast.Add(), ln, idx, st, node), idx)
             return self.list_get(base, pos)
